@@ -5,18 +5,18 @@ Expression order follows the Rust source (left-to-right association).
 import ScadVerif.Model.Scalar
 namespace ScadVerif
 
-structure Pt2 (α : Type) where
+@[ext] structure Pt2 (α : Type) where
   x : α
   y : α
 deriving Repr, DecidableEq, BEq
 
-structure Pt3 (α : Type) where
+@[ext] structure Pt3 (α : Type) where
   x : α
   y : α
   z : α
 deriving Repr, DecidableEq, BEq
 
-structure Pt4 (α : Type) where
+@[ext] structure Pt4 (α : Type) where
   x : α
   y : α
   z : α
